@@ -111,7 +111,8 @@ static inline bool tw_parallel(void) { return !P.serial; }
 /* ------------------------------------------------------------------ model callbacks */
 static bool serial_started;
 static double serial_last_ts = -1;
-static struct lp_msg *serial_last;
+static __thread bool in_queue_fini;
+static __thread struct lp_ctx *releasing_history_of; /* fossil collection / finalisation of this LP is releasing its own entries */
 
 void eng_on_init(lp_id_t me)
 {
@@ -490,7 +491,9 @@ void verif_wrap_fossil_lp_collect(struct lp_ctx *lp)
 				snap[i] = (struct ev_rec){m->dest_t, m->m_type, m->pl_size, payload_hash(m->pl, m->pl_size)};
 		}
 	}
+	releasing_history_of = lp;
 	RKC->fossil_lp_collect(lp);
+	releasing_history_of = NULL;
 	array_count_t after = array_count(lp->p.p_msgs);
 	if(after > before)
 		sim_violation("C13", "history-grew", "fossil collection grew the history");
@@ -560,7 +563,9 @@ void verif_wrap_process_lp_fini(struct lp_ctx *lp)
 		struct ev_rec e = {m->dest_t, m->m_type, m->pl_size, payload_hash(m->pl, m->pl_size)};
 		commit_entry(me, &e, g, "shutdown");
 	}
+	releasing_history_of = lp;
 	RKC->process_lp_fini(lp);
+	releasing_history_of = NULL;
 }
 
 void verif_wrap_stats_take(enum stats_thread_type s, uint_fast64_t c)
@@ -593,6 +598,20 @@ bool verif_wrap_sync_thread_barrier(void) { return RKC->sync_thread_barrier(); }
 
 void verif_wrap_msg_allocator_free_at_gvt(struct lp_msg *m) { RKC->msg_allocator_free_at_gvt(m); }
 
+void verif_wrap_msg_queue_fini(void)
+{
+	in_queue_fini = true;
+	{
+		char nm[32];
+		snprintf(nm, sizeof(nm), "r%d_queues", vt_self->rank);
+		char **qp = sim_symbol_addr(nm);
+		if(qp && *qp && *(struct lp_msg **)(*qp + 64 * (size_t)*RKC->p_rid()))
+			probe_hit("buffer_list_nonempty_at_fini");
+	}
+	RKC->msg_queue_fini();
+	in_queue_fini = false;
+}
+
 /* lp_init()/lp_fini() are called by parallel.c: ownership ranges are known when lp_init returns */
 void verif_wrap_lp_fini(void) { RKC->lp_fini(); }
 
@@ -608,9 +627,102 @@ void verif_wrap_lp_init(void)
 	sim_event(0x13, c->first, c->end);
 }
 
-/* message buffer life cycle (hook 1) */
-void verif_hook_msg_alloc(struct lp_msg *msg) { (void)msg; }
-void verif_hook_msg_free(struct lp_msg *msg) { (void)msg; }
+/* ------------------------------------------------------------------ C06: message buffer life cycle (hook 1) */
+#if defined(__SANITIZE_ADDRESS__)
+#include <sanitizer/asan_interface.h>
+#else
+#define __asan_poison_memory_region(a, n) ((void)0)
+#define __asan_unpoison_memory_region(a, n) ((void)0)
+#endif
+#define BUF_TAB 32768u
+static struct buf_ent {
+	struct lp_msg *m;
+	bool live;
+	uint32_t gen;
+} buf_tab[BUF_TAB];
+static uint64_t buf_allocs, buf_frees;
+extern bool fakempi_buffer_in_flight(const void *lo, const void *hi) __attribute__((weak));
+
+static struct buf_ent *buf_find(struct lp_msg *m, bool create)
+{
+	unsigned h = (unsigned)(((uintptr_t)m >> 4) * 2654435761u) & (BUF_TAB - 1);
+	for(unsigned k = 0; k < BUF_TAB; k++) {
+		struct buf_ent *e = &buf_tab[(h + k) & (BUF_TAB - 1)];
+		if(e->m == m)
+			return e;
+		if(!e->m) {
+			if(!create)
+				return NULL;
+			e->m = m;
+			return e;
+		}
+	}
+	return NULL;
+}
+
+void verif_hook_msg_alloc(struct lp_msg *msg)
+{
+	if(!vt_self)
+		return;
+	__asan_unpoison_memory_region(msg, sizeof(struct lp_msg));
+	struct buf_ent *e = buf_find(msg, true);
+	if(!e)
+		return;
+	if(e->live)
+		sim_violation("C06", "buffer-handed-out-twice", "message buffer %p handed out while still in use", (void *)msg);
+	e->live = true;
+	e->gen++;
+	buf_allocs++;
+}
+
+void verif_hook_msg_free(struct lp_msg *msg)
+{
+	if(!vt_self)
+		return;
+	struct buf_ent *e = buf_find(msg, false);
+	buf_frees++;
+	if(e) {
+		if(!e->live)
+			sim_violation("C06", "double-release", "message buffer %p (t=%g) released twice", (void *)msg, msg->dest_t);
+		e->live = false;
+	}
+	if(!P.serial) {
+		for(unsigned i = 0; i < pend_n; i++)
+			if(pend[i].m == msg) {
+				/* shutdown discards what is still queued for the finalising thread: by design */
+				if(in_queue_fini && msg->dest < (lp_id_t)P.n_lps && LM[msg->dest].owner_vt == vt_self->id) {
+					pend[i] = pend[--pend_n];
+					probe_hit("queued_at_shutdown");
+					break;
+				}
+				sim_violation("C06", "released-while-queued", "message %p (t=%g, LP %llu) released while it sits in a thread's queue",
+				    (void *)msg, msg->dest_t, (unsigned long long)msg->dest);
+			}
+		if(fakempi_buffer_in_flight && fakempi_buffer_in_flight(msg, (char *)msg + sizeof(struct lp_msg)))
+			sim_violation("C06", "released-in-flight", "message %p (t=%g) released while MPI may still read its buffer", (void *)msg,
+			    msg->dest_t);
+		int rank = vt_self->rank;
+		lp_id_t d = msg->dest;
+		if(d < (lp_id_t)P.n_lps && LM[d].init_count == 1 && LM[d].owner_rank == rank && LM[d].fini_count == 0) {
+			struct lp_ctx *lp = lp_of(rank, d);
+			if(lp != releasing_history_of)
+				for(array_count_t i = 0; i < array_count(lp->p.p_msgs); i++)
+					if(array_get_at(lp->p.p_msgs, i) == msg)
+						sim_violation("C06", "released-while-in-history",
+						    "message %p (t=%g) released while it is entry %u of the live history of LP %llu", (void *)msg,
+						    msg->dest_t, i, (unsigned long long)d);
+			for(struct lp_msg *a = lp->p.early_antis; a; a = a->next)
+				if(a == msg)
+					sim_violation("C06", "released-early-anti", "early anti-message %p released while still listed", (void *)msg);
+		}
+	}
+	if(msg->pl_size <= MSG_PAYLOAD_BASE_SIZE) {
+		/* a recycled buffer must not be read again; the granule holding pl_size stays readable for the allocator itself */
+		size_t keep_lo = offsetof(struct lp_msg, pl_size) & ~(size_t)7, keep_hi = keep_lo + 8;
+		__asan_poison_memory_region(msg, keep_lo);
+		__asan_poison_memory_region((char *)msg + keep_hi, sizeof(struct lp_msg) - keep_hi);
+	}
+}
 
 /* ------------------------------------------------------------------ running one simulation */
 static void *rank_main(void *arg)
@@ -849,11 +961,11 @@ void engine_fill_result(char *buf, size_t n)
 		votes += TC[v].votes;
 	snprintf(buf, n,
 	    "eng=tw ranks=%lld thr=%lld lps=%lld ckpt=%lld gvtp=%lld serial=%lld refev=%zu fw=%llu sil=%llu rb=%llu undone=%llu ck=%llu "
-	    "anti=%llu ins=%llu ext=%llu fossil=%llu committed=%llu gvts=%u votes=%u fgvt=%g stop=%d fin=%016llx maxrb=%llu",
+	    "anti=%llu ins=%llu ext=%llu fossil=%llu committed=%llu gvts=%u votes=%u fgvt=%g stop=%d fin=%016llx maxrb=%llu balloc=%llu bfree=%llu",
 	    (long long)P.n_ranks, (long long)P.n_threads, (long long)P.n_lps, (long long)P.ckpt_interval, (long long)P.gvt_period,
 	    (long long)P.serial, ref_total_events, (unsigned long long)M.n_forward, (unsigned long long)M.n_silent,
 	    (unsigned long long)M.n_rollbacks, (unsigned long long)M.n_undone, (unsigned long long)M.n_ckpt, (unsigned long long)M.n_anti,
 	    (unsigned long long)M.n_insert, (unsigned long long)M.n_extract, (unsigned long long)M.n_fossil,
 	    (unsigned long long)M.n_committed, M.rounds_known, votes, M.final_gvt > 1e300 ? -1.0 : M.final_gvt, M.stop_called,
-	    (unsigned long long)fin, (unsigned long long)M.max_rb_depth);
+	    (unsigned long long)fin, (unsigned long long)M.max_rb_depth, (unsigned long long)buf_allocs, (unsigned long long)buf_frees);
 }
